@@ -308,7 +308,10 @@ SCENARIOS["xtrig"] = xtrig
 
 def expire(job, rng, home):
     """Datetime cycling with clock-expire tasks; the virtual clock advances two hours per main-loop iteration."""
-    w = gen.generate(rng, features=dict(job.get("features") or {}, expire=True, future=False, max_fcp=4))
+    feats = dict(job.get("features") or {}, expire=True, future=False, max_fcp=4)
+    if rng.random() < 0.4:
+        feats["queues"] = "always"      # limited queues: a manually triggered task may have to wait in its queue
+    w = gen.generate(rng, features=feats)
     outcome = gen.make_outcome(w, rng, "complete")
     pol = dict(tick=rng.choice([3600.0, 7200.0, 14400.0]), max_iters=300)
     pol.update(job.get("policy") or {})
